@@ -74,6 +74,28 @@ def classify(spec, table, backend, kind, out2, diff=None, res=None):
     return None
 
 
+def completeness(run, spec, table, opts, muts, out, backend):
+    """(c) a table that conforms by construction and needs only the exact
+    parsing steps the schema requests must be accepted.  Returns True when a
+    violation was recorded."""
+    if muts or any(o.startswith("inexact:") for o in opts) or spec.get("unique") \
+            or out.kind == "exc":
+        return False
+    fields = spec["columns"] if spec["kind"] == "frame" else [spec["field"]]
+    if any(fs["unique"] and fs.get("default") is not None for fs in fields):
+        return False      # a default may collide with an existing value
+    run.count("c:parseable_input_must_be_accepted_checked")
+    if out.accepted:
+        return False
+    mech = None
+    run.violation("parseable-conforming-input-rejected",
+                  C.brief(spec, table, {"backend": backend, "options": opts, "outcome": out.kind,
+                                        "reasons": out.reasons(),
+                                        "errors": [(e.reason, e.column, e.check_index) for e in out.errors][:6]}),
+                  mech)
+    return True
+
+
 def pandas_case(run, spec, table, opts, muts):
     try:
         data = B.pandas_table(spec, table)
@@ -90,6 +112,8 @@ def pandas_case(run, spec, table, opts, muts):
     for o in opts:
         run.count(f"option:{o}")
     run.count(f"pandas:{spec['kind']}:{out.kind}")
+    if completeness(run, spec, table, opts, muts, out, "pandas"):
+        return
     if not out.accepted:
         return
     if lazy and not labels_identify_rows(data):
@@ -144,6 +168,8 @@ def polars_case(run, spec, table, opts, muts, lazyframe):
     key = canon_hash([backend, spec, table])
     run.case(key, out.accepted and bool(opts), sample=None)
     run.count(f"{backend}:{out.kind}")
+    if not lazyframe and completeness(run, spec, table, opts, muts, out, backend):
+        return
     if not out.accepted:
         return
     res = out.result
@@ -196,6 +222,7 @@ def finalize(run, ctx):
     for name, m in [("a:stripped_revalidation_checked", 300), ("b:fixpoint_checked", 300),
                     ("pandas:series:ok", 30), ("pandas:frame:ok", 150), ("polars:ok", 50),
                     ("polars-lazy:ok", 50), ("option:drop_invalid_rows", 50),
+                    ("c:parseable_input_must_be_accepted_checked", 200),
                     ("option:add_missing_columns", 50), ("option:strict_filter", 50),
                     ("option:default", 50)]:
         run.floors[name] = m
